@@ -102,8 +102,15 @@ fn shape_to_geo(case: &str, ty: i32, i: usize, ctx: &Ctx, rep: &mut Report) {
             for h in 0..=nh {
                 let pts: Vec<(f64, f64)> = if stars {
                     star_ring(&mut r, h == 0)
+                } else if h > 0 && i % 4 == 1 {
+                    // degenerate holes with zero area whose vertex list is not a palindrome:
+                    // a bow-tie, a flat slit, three collinear points
+                    let (ox, oy) = (r.below(50) as f64, r.below(50) as f64);
+                    let shapes: [&[(f64, f64)]; 3] = [&[(0.0, 0.0), (2.0, 2.0), (2.0, 0.0), (0.0, 2.0)], &[(1.0, 0.0), (1.0, 3.0), (1.0, 1.0), (1.0, 2.0)], &[(0.0, 0.0), (1.0, 1.0), (3.0, 3.0)]];
+                    shapes[r.below(3) as usize].iter().map(|p| (p.0 + ox, p.1 + oy)).collect()
                 } else {
-                    let c = Cfg { pool: Pool::Exact, ..Cfg::plain(1, 6) };
+                    // exact pool or the tiny integer grid (collinear and repeated points are common there)
+                    let c = Cfg { pool: if i % 4 == 3 { Pool::Grid } else { Pool::Exact }, ..Cfg::plain(1, 6) };
                     (0..r.usize_in(1, 6)).map(|_| (gen::coord(&mut r, &c, false), gen::coord(&mut r, &c, false))).collect()
                 };
                 let kind = if ty == 31 {
